@@ -306,11 +306,10 @@ class CallbacksExecutor:
         )
 
     async def async_all(self, *args, **kwargs):
-        coros = [condition(*args, **kwargs) for condition in self]
-        for coro in asyncio.as_completed(coros):
-            if not await coro:
-                return False
-        return True
+        # every started condition is awaited to completion: returning at the first falsy one
+        # would leave the others running in the background while the next phase starts
+        results = await asyncio.gather(*(condition(*args, **kwargs) for condition in self))
+        return all(results)
 
     def call(self, *args, **kwargs):
         return [
